@@ -6,6 +6,7 @@ import XdsVerif.Driver.C10
 import XdsVerif.Driver.C14
 import XdsVerif.Driver.C15
 import XdsVerif.Driver.C20
+import XdsVerif.Driver.Handlers
 open Lean XdsVerif.Driver
 
 def dispatch (p : String) (j : Json) : Except String Verdict :=
@@ -20,6 +21,9 @@ def dispatch (p : String) (j : Json) : Except String Verdict :=
   | "C10" => C10.check j
   | "C14" => C14.check j
   | "C15" => C15.check j
+  | "C16" => Handlers.checkCb j
+  | "C17" => Handlers.checkRetry j
+  | "C18" => Handlers.checkLimit j
   | "C20" => C20.check j
   | _ => .error s!"no driver for property {p}"
 
